@@ -32,9 +32,9 @@ class C28(core.Check):
                   "lawful on the generated domain is carried by the correspondence and the oracle over call HISTORIES (failed serialisations in between, the same bytes loaded twice with the first result scribbled on).")
     level_note = ("Trusted: Lean kernel + propext/Classical.choice/Quot.sound; dataclasses.asdict / dataclass __init__ / typing introspection as modelled; "
                   "json, cbor2, msgpack as lawful codecs on the common domain (exercised, not proved); representativeness of the sampled correspondence.")
-    quick_n = 4000
+    quick_n = 2500
     thorough_n = 30000
-    rule = ("rt cases: random schema of 1-5 fresh run-time dataclasses over RawDom/RegDom/TymeDom/Ice*/MapDom bases, fields annotated Any / builtin / class / Optional[class] / "
+    rule = ("rt cases: random schema of 1-5 fresh run-time dataclasses over RawDom/RegDom/TymeDom/Ice*/MapDom bases or subclasses of earlier generated classes (inheritance depth >= 2, redeclared fields), field names incl. leading/trailing/double underscore and unicode identifiers, fields annotated Any / builtin / class / Optional[class] / "
             "class|None / unions of 2-3 classes in either spelling (values of EVERY member) / list[class] / dict[str,class] / 'class' (string), defaults or required; instance of depth <= 4 with 64-bit ints, "
             "non-NaN floats incl. inf and -0.0, unicode strings, empty containers, str keys; 30% 'dirty'. Every raw route also loads the same bytes a second time after every list/dict of the first result was "
             "changed in place. load cases: cls._fromdict on arbitrary plain trees. seq cases (30%): 2-6 calls in one freshly imported module: round trips (also of the same instance again), loads, and "
@@ -164,38 +164,92 @@ class C28(core.Check):
                 C28._scribble(getattr(v, f.name))
 
     def _rt_step(self, classes, tree):
-        x = D.to_py(tree, classes)
-        cls = type(x)
-        orig = D.canon(x, classes)
+        import dataclasses
+        from hio.help import doming
         try:
-            asd = D.canon(x._asdict(), classes)
+            x = D.to_py(tree, classes)
+            cls = type(x)
+            orig = D.canon(x, classes)
+        except Exception as ex:          # a record of the schema could not even be built
+            return ("rt", ("construct-raised", type(ex).__name__), "null", (), ())
+        extra = []
+        if not dataclasses.fields(cls) or not getattr(cls, "__dataclass_params__").frozen:
+            # item-style (re)assignment of every field after construction, in reverse order: the object stays what it was
+            try:
+                for f in reversed(dataclasses.fields(cls)):
+                    x[f.name] = getattr(x, f.name)
+                if hasattr(x, "_update"):
+                    x._update(**{f.name: getattr(x, f.name) for f in dataclasses.fields(cls)[-1:]})
+                if D.canon(x, classes) != orig:
+                    extra.append("setitem-changed-value")
+            except Exception as ex:
+                extra.append("setitem-raised-" + type(ex).__name__)
+            if hasattr(x, "_update"):
+                try:      # the two positional forms of _update: a mapping, an iterable of pairs
+                    x._update({f.name: getattr(x, f.name) for f in dataclasses.fields(cls)[:1]})
+                    x._update([(f.name, getattr(x, f.name)) for f in dataclasses.fields(cls)[:2]])
+                    if D.canon(x, classes) != orig:
+                        extra.append("setitem-changed-value")
+                except Exception as ex:
+                    extra.append("update-positional-raised-" + type(ex).__name__)
+        try:
+            # the mapping face of a record: iteration gives the field names, item access the values
+            if list(x) != [f.name for f in dataclasses.fields(cls)] or any(x[f.name] is not getattr(x, f.name) for f in dataclasses.fields(cls)):
+                extra.append("mapping-interface-wrong")
+        except Exception as ex:
+            extra.append("mapping-interface-raised-" + type(ex).__name__)
+        try:
+            d0 = x._asdict()
+            asd = D.canon(d0, classes)
+            self._scribble(d0)           # the dict handed out is the caller's: changing it must not reach the record
+            if D.canon(x, classes) != orig:
+                extra.append("asdict-aliases-the-record")
         except Exception as ex:
             asd = ("raise", type(ex).__name__)
-        routes = ["dict"] + (["json", "cbor", "mgpk"] if hasattr(cls, "_asjson") else [])
+        routes = ["dict", "func"] + (["json", "cbor", "mgpk"] if hasattr(cls, "_asjson") else [])
         out = []
         eqs = []
         for r in routes:
             try:
-                ser = getattr(x, "_as" + r)()
+                ser = doming.dictify(x) if r == "func" else getattr(x, "_as" + r)()
             except Exception as ex:
                 out.append((r, ("raise-serialize", type(ex).__name__)))
                 eqs.append(False)
                 continue
-            if r != "dict" and not isinstance(ser, bytes):
+            if r not in ("dict", "func") and not isinstance(ser, bytes):
                 out.append((r, ("foreign", "notbytes")))
                 eqs.append(False)
                 continue
-            res = _res(lambda: getattr(cls, "_from" + r)(ser))
+
+            def load(form=0):
+                if r == "func":          # the module-level functions, with the check _fromdict adds
+                    y = doming.datify(cls, ser)
+                    if not isinstance(y, cls):
+                        raise ValueError("datify did not give an instance")
+                    return y
+                arg = ser
+                if form == 1 and r == "json":
+                    arg = ser.decode("utf-8")        # _fromjson takes str as well as bytes
+                elif form == 1 and r in ("cbor", "mgpk"):
+                    arg = bytearray(ser)
+                return getattr(cls, "_from" + r)(arg)
+            res = _res(load)
             if res[0] == "ok":
                 y = res[1]
                 eq = bool(y == x) and type(y) is cls
                 res = ("ok", D.canon(y, classes))
-                if r != "dict":
-                    # deserialising the same bytes once more, after the caller changed the containers of the first result,
-                    # must give the same value again, built from fresh containers
+                if eq and r != "func":
+                    # what came back serialises to the very same thing again
+                    again_ser = _res(lambda: getattr(y, "_as" + r)())
+                    if again_ser != ("ok", ser):
+                        res = ("ok-but-reserialises-differently", res[1])
+                        eq = False
+                if r not in ("dict", "func"):
+                    # deserialising the same bytes once more (in the other accepted form), after the caller changed the
+                    # containers of the first result, must give the same value again, built from fresh containers
                     first = self._containers(y, set())
                     self._scribble(y)
-                    again = _res(lambda: getattr(cls, "_from" + r)(ser))
+                    again = _res(lambda: load(1))
                     if again[0] != "ok" or D.canon(again[1], classes) != res[1] or (first & self._containers(again[1], set())):
                         res = ("ok-but-second-load-differs", res[1])
                         eq = False
@@ -203,15 +257,33 @@ class C28(core.Check):
             else:
                 eqs.append(False)
             out.append((r, res))
-        return ("rt", orig, asd, tuple(out), tuple(eqs))
+        return ("rt", orig, asd, tuple(out), tuple(eqs)) + ((tuple(extra),) if extra else ())
 
     def _load_step(self, classes, j, tree):
+        """cls._fromdict(d) and, for the same plain tree encoded by the real json / cbor2 / msgpack, cls._fromjson/_fromcbor/_frommgpk"""
+        import json
+        import cbor2
+        import msgpack
         cls = classes[j]
-        d = D.to_py(tree, classes)
-        r = _res(lambda: cls._fromdict(d))
-        return ("load", ("ok", D.canon(r[1], classes)) if r[0] == "ok" else r)
 
-    def _bad_step(self, base):
+        def one(fn):
+            r = _res(fn)
+            return ("ok", D.canon(r[1], classes)) if r[0] == "ok" else r
+        first = one(lambda: cls._fromdict(D.to_py(tree, classes)))
+        others = []
+        if hasattr(cls, "_fromjson"):
+            plain = D.to_py(tree, classes)
+            for r, enc in (("json", lambda v: json.dumps(v, ensure_ascii=False).encode()), ("cbor", cbor2.dumps), ("mgpk", msgpack.dumps)):
+                try:
+                    raw = enc(plain)
+                except Exception:
+                    continue
+                got = one(lambda: getattr(cls, "_from" + r)(raw))
+                if got != first:
+                    others.append((r, got))
+        return ("load", first) + ((tuple(others),) if others else ())
+
+    def _bad_step(self, base, variant="object"):
         """serialise a record that holds an object no codec can represent: every route must refuse, and nothing may be
         left behind that changes a later call"""
         import dataclasses
@@ -225,7 +297,7 @@ class C28(core.Check):
             cls = doming.registerify(cls)
         if base == "icetyme":
             cls = doming.namify(cls)
-        rec = cls(a={"k": [1, "two"]}, x=object())
+        rec = cls(a={"k": [1, "two"]}, x=object() if variant == "object" else "lone surrogate \udc80")
         out = []
         for r in ("json", "cbor", "mgpk"):
             try:
@@ -233,6 +305,13 @@ class C28(core.Check):
                 out.append((r, "accepted"))
             except Exception:
                 out.append((r, "refused"))
+            # bytes that are not a serialisation at all, and a truncated one: deserialising must refuse as well
+            for junk in (b"\xc1\xff\x00garbage", b'{"a":[1', b""):
+                try:
+                    getattr(cls, "_from" + r)(junk)
+                    out.append((r, "accepted"))
+                except Exception:
+                    out.append((r, "refused"))
         return ("bad", tuple(out))
 
     def run_impl(self, case):
@@ -248,7 +327,10 @@ class C28(core.Check):
         return self._run_steps(case)
 
     def _run_steps(self, case):
-        classes = D.build_classes(case[1])
+        try:
+            classes = D.build_classes(case[1])
+        except Exception as ex:          # the schema's classes could not even be declared
+            return (("rt", ("construct-raised", "declare:" + type(ex).__name__), "null", (), ()),)
         out = []
         for st in self._steps(case):
             if st[0] == "rt":
@@ -256,12 +338,12 @@ class C28(core.Check):
             elif st[0] == "load":
                 out.append(self._load_step(classes, st[1], st[2]))
             else:
-                out.append(self._bad_step(st[1]))
+                out.append(self._bad_step(*st[1:]))
         return tuple(out)
 
     def _view(self, so):
         if so[0] == "load":
-            return sx.dumps(so[1])
+            return sx.dumps(so[1]) if len(so) == 2 else sx.dumps(so[1:])
         if so[0] == "bad":
             return "(bad)" if all(v == "refused" for _, v in so[1]) else sx.dumps(so)
         results = {r for _, r in so[3]}
@@ -278,13 +360,17 @@ class C28(core.Check):
     @staticmethod
     def _step_clauses(so):
         if so[0] == "load":
-            return []
+            return [] if len(so) == 2 else [f"{r}-loads-differently-from-fromdict" for r, _ in so[2]]
         if so[0] == "bad":
-            return [f"{r}-accepted-unserializable" for r, v in so[1] if v != "refused"]
-        _, orig, asd, routes, eqs = so
-        bad = []
+            return sorted({f"{r}-accepted-unserializable-or-garbage" for r, v in so[1] if v != "refused"})
+        _, orig, asd, routes, eqs = so[:5]
+        if isinstance(orig, tuple) and orig[:1] == ("construct-raised",):
+            return ["record-could-not-be-built-" + orig[1]]
+        bad = list(so[5]) if len(so) > 5 else []
         for (r, res), eq in zip(routes, eqs):
-            if res[0] == "ok-but-second-load-differs":
+            if res[0] == "ok-but-reserialises-differently":
+                bad.append(f"{r}-reserialises-differently")
+            elif res[0] == "ok-but-second-load-differs":
                 bad.append(f"{r}-second-load-differs-or-shares-containers")
             elif res[0] != "ok":
                 bad.append(f"{r}-raised")
@@ -307,6 +393,9 @@ class C28(core.Check):
         schema = case[1]
         for st, so in zip(self._steps(case), obs):
             cl = self._step_clauses(so)
+            if "update-positional-raised-NameError" in cl:
+                ids.add("C28-K4")          # open until the fix commit reaches the tree under test
+                cl = [c for c in cl if c != "update-positional-raised-NameError"]
             if not cl:
                 continue
             if st[0] != "rt" or not all(c.endswith("-not-equal-or-other-class") for c in cl):
@@ -321,6 +410,7 @@ class C28(core.Check):
                 ids.add("C28-K3")
             else:
                 return None
+        ids = ids - {"C28-K4"} if len(ids) > 1 else ids
         return sorted(ids)[0] if ids else None
 
     def nontrivial(self, case, obs):
@@ -375,7 +465,7 @@ class C28(core.Check):
             if later_member(t):
                 f.append("union:value-of-later-member")
             f.append("guard:" + ("K1" if D.misplaced_obj(schema, t) else "K2" if D.upgraded_plain(schema, t) else "K3" if D.ambiguous_union(schema, t) else "clean"))
-            f.append("rt:" + ("equal" if all(so[4]) else "differs"))
+            f.append("rt:" + ("equal" if so[4] and all(so[4]) else "differs"))
         return f
 
     def shrink(self, case):
